@@ -62,7 +62,7 @@ var denyPkgs = []string{
 	"github.com/mitchellh/", "github.com/imdario/mergo", "sigs.k8s.io/yaml", "gopkg.in/yaml", "github.com/google/go-cmp",
 	"k8s.io/apimachinery/pkg/util/json", "github.com/nleeper/goment",
 	"k8s.io/apimachinery/pkg/runtime", "k8s.io/client-go/tools/record", "k8s.io/client-go/util/workqueue",
-	"k8s.io/apimachinery/pkg/util/wait", "unsafe", "io", "bufio", "bytes", "math/rand", "crypto/", "hash/",
+	"k8s.io/apimachinery/pkg/util/wait", "unsafe", "bufio", "math/rand", "crypto/", "hash/",
 }
 
 var allowExceptions = map[string]bool{
